@@ -365,7 +365,7 @@ def run(chk):
                                                "_norm_slice.register(slice)", "P"))
     only = getattr(chk, "only", None)
     if not only or "proof" in only:
-        run_proof(chk)
+        chk.guard(run_proof)
         chk.discharge()
     chk.assume("numpy int32 gap coordinates (IndelMap) are below 2**31; Python ints are mathematical")
     if (not only or "bounded" in only) and os.path.exists(os.path.join(os.path.dirname(__file__), "..", "bounded", "C08.py")):
